@@ -13,6 +13,7 @@ import (
 	"fmt"
 	"math/rand"
 	"sort"
+	"strings"
 	"sync"
 	"time"
 
@@ -99,6 +100,9 @@ type Options struct {
 	// observable the engine produces too EARLY (before the environment action that should
 	// enable it) is logged before that action instead of hiding behind it
 	Linger time.Duration
+	// EarlyWait: call WaitUntilComplete (1 ms) the moment StartAll has returned, when the
+	// schedule shows that a task request must be answered before the instance can complete
+	EarlyWait bool
 }
 
 func DefaultOptions() Options {
@@ -446,6 +450,22 @@ func Run(runIdx int, p *prog.Program, sch *Schedule, o Options) []Rec {
 	r.mu.Lock()
 	r.add(Rec{Ev: "started", Ok: startOK})
 	r.mu.Unlock()
+	if o.EarlyWait && startOK && len(sch.Steps) > 0 {
+		must := false
+		for k, v := range sch.Steps[0].Pre {
+			if strings.HasPrefix(k, "req:") && v > 0 {
+				must = true
+			}
+		}
+		if must {
+			wctx, wcancel := context.WithTimeout(context.Background(), time.Millisecond)
+			early := inst.WaitUntilComplete(wctx)
+			wcancel()
+			r.mu.Lock()
+			r.add(Rec{Ev: "wait", Ok: early, N: 0, Occ: 1})
+			r.mu.Unlock()
+		}
+	}
 
 	aborted := false
 	if startOK {
